@@ -223,6 +223,24 @@ class Writer:
             for a, n in zip(b.aligns, b.dashes):
                 delim.append({None: '-' * n, 'left': ':' + '-' * n, 'center': ':' + '-' * n + ':', 'right': '-' * n + ':'}[a])
 
+            if self.canonical:
+                # MarkdownRenderer's normal form: every row has all cells, cells padded to the column width (>= 3),
+                # left / centred / right per alignment, delimiter cells stretched to the width
+                nc = len(b.aligns)
+                rows = [r + [''] * (nc - len(r)) for r in rows]
+                widths = [max(3, max(len(r[ci]) for r in rows)) for ci in range(nc)]
+
+                def fmt(text, a, w):
+                    if a == 'center':
+                        return '{0: ^{w}}'.format(text, w=w)
+                    if a == 'right':
+                        return '{0: >{w}}'.format(text, w=w)
+                    return '{0: <{w}}'.format(text, w=w)
+                rows = [[fmt(r[ci], b.aligns[ci], widths[ci]) for ci in range(nc)] for r in rows]
+                delim = []
+                for a, w in zip(b.aligns, widths):
+                    delim.append((':' if a == 'center' else '-') + '-' * (w - 2) + (':' if a in ('center', 'right') else '-'))
+
             def rowline(cs):
                 return ind + '| ' + ' | '.join(cs) + ' |'
             out = [L(rowline(rows[0]), False, [b, ('row', b, 0)]), L(rowline(delim))]
@@ -311,6 +329,8 @@ class Writer:
         t = self.t
         if rec.blank:
             return L('', False, rec.starts, True)
+        if rec.text == '':
+            return L('', False, rec.starts, False, False)      # e.g. an empty line of a fenced code block
         if rec.lazy and rec.bare and not self.canonical and t.chance(50):
             self.lazy_used += 1
             return L(' ' * t.below(min(w, 4)) + rec.text.lstrip(' '), True, rec.starts)
